@@ -196,6 +196,10 @@ def ob_decrypt_asn1(lx, ly, lh, lc, c1c3c2):
                           ["yasna::parse_der -> arbitrary result (Ok with the stated field lengths, or Err)", "Sm2PrivateKey::decrypt -> capturing (C06)"])
 
 
+def ex_const(c, dom, ctx, name):
+    return Ex(c, dom, ctx).const(name)
+
+
 def ob_from_byte_lengths(L):
     """Point::from_byte: wrong lengths are rejected, never a panic; the right lengths decode x (and y) from the right bytes"""
     def body(stats):
@@ -220,10 +224,10 @@ def ob_from_byte_lengths(L):
             ex.summaries = s
             b = sym_bytes(dom, "b", L)
             r = ex.run_fn(c.find("Point::from_byte"), [Ref(Cell(Agg(list(b), name="array"), "b"), (), (0, L))])
-            return dom, W, TO, b, r
+            return dom, W, (TO, FPM, FPA, FPS, SQRT, SQRT_OK), b, r
         paths = explore(run, prune=lambda a: smt.feasible(a, 5), max_paths=64)
         check_all_panics(stats, paths)
-        for ctx, (dom, W, TO, b, r) in live_paths(paths):
+        for ctx, (dom, W, (TO, FPM, FPA, FPS, SQRT, SQRT_OK), b, r) in live_paths(paths):
             hy = ctx.facts + ctx.pc
             bt = [dom.term(x) for x in b]
             if result_ok(r):
@@ -235,6 +239,15 @@ def ob_from_byte_lengths(L):
                     discharge(stats, hy, z3.Or(flag == 2, flag == 3), "33-byte encodings are accepted only with tag 02/03")
                     discharge(stats, hy, z3.ULT(z3.Concat(*bt[1:33]), z3.BitVecVal(P2, 256)), "compressed encoding accepted only with a canonical x (< p)")
                     discharge(stats, hy, u256_term(dom, P.f[0]) == TO(z3.Concat(*bt[1:33])), "x decoded from bytes 1..33")
+                    xm = TO(z3.Concat(*bt[1:33]))
+                    A_, B_ = [u256_term(dom, ex_const(c, dom, ctx, n_)) for n_ in ("SM2_MODP_MONT_A", "SM2_MODP_MONT_B")]
+                    yy = FPA(FPA(FPM(FPM(xm, xm), xm), FPM(xm, A_)), B_)
+                    y0 = SQRT(yy)
+                    par = z3.Extract(0, 0, W.FROM_MONT(y0))
+                    Pm = u256_term(dom, ex_const(c, dom, ctx, "SM2_P"))
+                    yr = u256_term(dom, P.f[1])
+                    discharge(stats, hy, z3.And(SQRT_OK(yy), z3.If(par == z3.Extract(0, 0, flag), yr == y0, yr == FPS(Pm, y0))),
+                              "decompression: y = sqrt(x^3 + a x + b), negated exactly when its parity differs from the tag")
                 else:
                     discharge(stats, hy, flag == 4, "65-byte encodings are accepted only with the uncompressed tag 04 (any other first byte is a modified encoding)")
                     discharge(stats, hy, z3.And(z3.ULT(z3.Concat(*bt[1:33]), z3.BitVecVal(P2, 256)), z3.ULT(z3.Concat(*bt[33:65]), z3.BitVecVal(P2, 256))),
@@ -372,8 +385,43 @@ def ob_private_key_bytes():
                           ["g_mul, is_valid -> uninterpreted"])
 
 
+def ob_to_byte_be(compress):
+    """Point::to_byte_be: tag and coordinates come from the AFFINE form of the point, for any Jacobian representation"""
+    def body(stats):
+        c = load_crate(CRATE)
+        def run(ctx):
+            dom = BV(); ex = Ex(c, dom, ctx)
+            W = Sm2World(dom, ctx)
+            ex.summaries = W.summaries(None)
+            P = z3.BitVec("P", 768)
+            r = ex.run_fn(c.find("Point::to_byte_be"), [Ref(Cell(pt_val(P), "P")), Sc(bool(compress), "bool")])
+            return dom, W, P, r
+        paths = explore(run, prune=lambda a: smt.feasible(a, 5), max_paths=8)
+        check_all_panics(stats, paths)
+        for ctx, (dom, W, P, r) in live_paths(paths):
+            hy = ctx.facts + ctx.pc
+            A = W.AFF(P)
+            ax, ay = W.FROM_MONT(z3.Extract(767, 512, A)), W.FROM_MONT(z3.Extract(511, 256, A))
+            out = [dom.term(b) for b in r.f]
+            if len(out) != (33 if compress else 65):
+                raise Violation("to_byte_be(compress=%s) returns %d bytes" % (compress, len(out)))
+            xb = split_terms(ax, 32); yb = split_terms(ay, 32)
+            if compress:
+                tag = z3.If(z3.Extract(0, 0, ay) == 0, z3.BitVecVal(2, 8), z3.BitVecVal(3, 8))
+                want = [tag] + xb
+            else:
+                want = [z3.BitVecVal(4, 8)] + xb + yb
+            discharge(stats, hy, z3.And([a == b for a, b in zip(out, want)]),
+                      "to_byte_be = %s of the affine form of the point" % ("(02 | parity of y) || x" if compress else "04 || x || y"))
+        return {}
+    return run_obligation("to_byte_be_%s" % ("compressed" if compress else "uncompressed"), ["gm_sm2::p256_ecc::Point::to_byte_be"], "all points in any Jacobian representation", body,
+                          ["to_affine_point, fp_from_mont -> uninterpreted (C11)"])
+
+
 def run(tier, seed, t0):
-    jobs = [ob_pubkey_new_validates, ob_private_key_bytes, ob_pubkey_from_hex, ob_spki_try_from]
+    jobs = [ob_pubkey_new_validates, ob_private_key_bytes, ob_pubkey_from_hex, ob_spki_try_from, lambda: ob_to_byte_be(True), lambda: ob_to_byte_be(False)]
+    import c11
+    jobs += [lambda: c11.ob_pow("fp_pow", "SM2_SQRT_EXP", (c11.P2 + 1) // 4, "((p+1)/4)")]
     jobs += [(lambda L=L: ob_from_byte_lengths(L)) for L in ([0, 1, 32, 33, 34, 64, 65, 66] if tier == "quick" else range(0, 70))]
     for order in (True, False):
         for m in ((1, 5) if tier == "quick" else (1, 2, 5, 31, 32, 33)):
